@@ -9,15 +9,15 @@ git -C /repo worktree add -q --detach "$WT" HEAD || exit 2
 cleanup() { git -C /repo worktree remove --force "$WT" 2>/dev/null; }
 trap cleanup EXIT
 if [ -f "$D/demo.py" ]; then DEMO="/venv/bin/python $D/demo.py"; else DEMO="sh $D/demo.sh"; fi
-echo "== demo on unchanged tree"; ( cd "$WT" && FCP_TREE="$WT" PYTHONPATH="$WT/src" $DEMO >/tmp/seed_demo_clean.log 2>&1 ); echo "exit=$? (want 0)"
+echo "== demo on unchanged tree"; ( cd "$WT" && FCP_TREE="$WT" PYTHONPATH="$WT/src" $DEMO >/tmp/seed_demo_clean.$$.log 2>&1 ); echo "exit=$? (want 0)"
 ( cd "$WT" && git apply "$D/patch.diff" ) || { echo "PATCH DOES NOT APPLY"; exit 2; }
 echo "== baseline tests on changed tree"
 ( cd "$WT" && PYTHONPATH="$WT/src" /venv/bin/python -m pytest -q -p no:cacheprovider -x tests plugins/fcp_dbc plugins/fcp_nop 2>&1 | tail -2 )
-echo "== demo on changed tree"; ( cd "$WT" && FCP_TREE="$WT" PYTHONPATH="$WT/src" $DEMO >/tmp/seed_demo_changed.log 2>&1 ); echo "exit=$? (want non-zero)"; tail -3 /tmp/seed_demo_changed.log
+echo "== demo on changed tree"; ( cd "$WT" && FCP_TREE="$WT" PYTHONPATH="$WT/src" $DEMO >/tmp/seed_demo_changed.$$.log 2>&1 ); echo "exit=$? (want non-zero)"; tail -3 /tmp/seed_demo_changed.$$.log
 cd "$(dirname "$0")/.."
 for id in "$@"; do
   echo "== check $id on changed tree"
-  VERIF_REPO="$WT" PYTHONPATH="$WT/src" VERIF_NO_EVIDENCE=1 ./check "$id" ${VERIF_SEED_TIER:-quick} > /tmp/seed_check.log 2>&1; rc=$?
-  grep -v "^  File\|^    " /tmp/seed_check.log | tail -${VERIF_MUT_TAIL:-4} | cut -c1-400
+  VERIF_REPO="$WT" PYTHONPATH="$WT/src" VERIF_NO_EVIDENCE=1 ./check "$id" ${VERIF_SEED_TIER:-quick} > /tmp/seed_check.$$.log 2>&1; rc=$?
+  grep -v "^  File\|^    " /tmp/seed_check.$$.log | tail -${VERIF_MUT_TAIL:-4} | cut -c1-400
   echo "== $id exit=$rc"
 done
